@@ -16,6 +16,7 @@ matrix; `coef S d A a` is entry `a` of `matrix_to_gellmann_basis(A)`.
 -/
 import NumqiProofs.GellmannComplex
 import NumqiProofs.GellmannPerturb
+import NumqiProofs.GellmannTensor
 import Mathlib.LinearAlgebra.Matrix.Kronecker
 
 namespace Numqi.C16
@@ -121,6 +122,39 @@ theorem tensor2_orthogonal (S : Scalars R) (hS : S.Valid d) (hd : 1 ≤ d) {a b 
       = if a = a' ∧ b = b' then 4 else 0 := by
   rw [← Matrix.mul_kronecker_mul, Matrix.trace_kronecker, basis_orthogonal S hS hd ha ha', basis_orthogonal S hS hd hb hb']
   by_cases h1 : a = a' <;> by_cases h2 : b = b' <;> simp [h1, h2]; norm_num
+
+/-! ### the executed `tensor_n = 2` / `with_I = False` lists (round 6)
+
+`tensor2_orthogonal` above is about Mathlib's `kroneckerMap`; the statements below are about the constant `allGellmannT2` that the driver executes
+(op `allt`), which models the `itertools.product` order and the `np.kron` index flattening of `_all_gellmann_matrix_cache`. -/
+
+/-- `all_gellmann_matrix(d, tensor_n=2)` has `d⁴` elements … -/
+theorem allGellmannT2_length (S : Scalars R) (hd : 1 ≤ d) : (allGellmannT2 S d true).length = (d * d) * (d * d) :=
+  length_allGellmannT2 S hd
+/-- … element `a·d² + b` is `G_a ⊗ G_b`: the `np.kron` flattening `(r1·d + r2, c1·d + c2)` is Mathlib's Kronecker product reindexed by `finProdFinEquiv` … -/
+theorem tensor2_executed_eq_kronecker (S : Scalars R) (hd : 1 ≤ d) {a b : Nat} (ha : a < d * d) (hb : b < d * d) :
+    basisT2 S d (a * (d * d) + b) = Matrix.reindex finProdFinEquiv finProdFinEquiv (kroneckerMap (· * ·) (basis S d a) (basis S d b)) :=
+  basisT2_eq S hd ha hb
+/-- … and **the executed list is orthogonal with `Tr(T_x T_y) = 4 δ_xy`** for all `x, y < d⁴`. -/
+theorem tensor2_executed_orthogonal (S : Scalars R) (hS : S.Valid d) (hd : 1 ≤ d) {x y : Nat}
+    (hx : x < (d * d) * (d * d)) (hy : y < (d * d) * (d * d)) :
+    trace (basisT2 S d x * basisT2 S d y) = if x = y then 4 else 0 :=
+  basisT2_orthogonal S hS hd hx hy
+/-- `with_I = False` (either `tensor_n`): the same list without its last element — for `tensor_n = 2` only `I ⊗ I` is dropped — so every remaining
+element is the element of the same index of the full list. -/
+theorem with_I_false (S : Scalars R) (hd : 1 ≤ d) :
+    (allGellmannOpt S d false).length + 1 = d * d ∧ (allGellmannT2 S d false).length + 1 = (d * d) * (d * d) ∧
+    (∀ a, a + 1 < d * d → (allGellmannOpt S d false)[a]? = (allGellmann S d)[a]?) ∧
+    (∀ x, x + 1 < (d * d) * (d * d) → (allGellmannT2 S d false)[x]? = (allGellmannT2 S d true)[x]?) := by
+  have h1 := length_allGellmann S hd
+  have h2 := length_allGellmannT2 S hd
+  have hpos : 0 < d * d := Nat.mul_pos hd hd
+  have hpos2 : 0 < (d * d) * (d * d) := Nat.mul_pos hpos hpos
+  refine ⟨?_, ?_, ?_, ?_⟩
+  · rw [allGellmannOpt_false, List.length_dropLast, h1]; omega
+  · rw [allGellmannT2_false, List.length_dropLast, h2]; omega
+  · intro a ha; rw [allGellmannOpt_false]; exact getElem?_dropLast_of_lt _ a (by rw [h1]; exact ha)
+  · intro x hx; rw [allGellmannT2_false]; exact getElem?_dropLast_of_lt _ x (by rw [h2]; exact hx)
 
 /-! ### bridge to the instance that the driver executes
 
